@@ -1,7 +1,7 @@
 (* C20 -- introspection agrees with the template text and with formatting.
    GENERATED from Properties/src/C20.props by tools/mkprops.py; property theorems only. *)
 From SP Require Import Model.Template Model.Scanner.
-From SP Require Import Proofs.ImplSpec Proofs.TemplateP Proofs.TemplateLaws.
+From SP Require Import Proofs.ImplSpec Proofs.TemplateP Proofs.TemplateLaws Proofs.IntrospectP.
 
 Theorem C20_template_string :
   forall (s : str) (t : template), template_parse s = Ok t -> template_string t = s.
@@ -63,6 +63,34 @@ Check C20_section_info :
                  /\ si_template_pos info = Some (b + length (filter is_sec (firstn i secs)))%nat
     end.
 Print Assumptions C20_section_info.
+
+(* get_template_sections lists exactly the sections, in order, numbered 0, 1, 2, ...
+   and is, entry by entry, the template part of get_section_info *)
+Theorem C20_accessors_agree :
+  forall (t : template),
+  get_template_sections t = flat_map info_entry (get_section_info t)
+  /\ map fst (get_template_sections t) = seq 0 (template_section_count t)
+  /\ map snd (get_template_sections t) = sec_ops (t_sections t).
+Proof. exact accessors_agree. Qed.
+Check C20_accessors_agree :
+  forall (t : template),
+  get_template_sections t = flat_map info_entry (get_section_info t)
+  /\ map fst (get_template_sections t) = seq 0 (template_section_count t)
+  /\ map snd (get_template_sections t) = sec_ops (t_sections t).
+Print Assumptions C20_accessors_agree.
+
+(* the section info carries every literal verbatim and every section's operations,
+   in the order in which formatting concatenates them *)
+Theorem C20_info_lists_the_parts :
+  forall (secs : list section) (a b : nat),
+  map (fun i => (si_content i, si_ops i)) (section_info_from secs a b)
+  = map (fun s => match s with Lit l => (Some l, None) | Sec o => (None, Some o) end) secs.
+Proof. exact info_lists_the_parts. Qed.
+Check C20_info_lists_the_parts :
+  forall (secs : list section) (a b : nat),
+  map (fun i => (si_content i, si_ops i)) (section_info_from secs a b)
+  = map (fun s => match s with Lit l => (Some l, None) | Sec o => (None, Some o) end) secs.
+Print Assumptions C20_info_lists_the_parts.
 
 Theorem C20_debug_accessor :
   forall (t : template) (d : bool),
